@@ -80,6 +80,13 @@ class C16(PureCheck):
         for (n, c) in ((1100, 1), (2600, 2)):
             yield {"op": "linesplit", "f": {"k": "f", "v": [[[120] * n, list(ATTS[1])]]}, "cols": c}
             yield {"op": "linesplit", "f": {"k": "s", "v": [[[97, 32] + [121] * n, list(fmtlib.PLAIN)]]}, "cols": c}
+        # texts longer than the usual buffer sizes (4096 / 8192 / 65536 characters), a word lying across each of them: judged
+        # on scalar facts - the words' lengths, the lines' lengths, and the observation that the lines hold the words'
+        # characters in order, single spaces between, under the one formatting (FmtJudge.JudgeLinesplitLong)
+        for (unit, reps, tail, c) in (("ab ", 1365, "hello world", 20), ("ab ", 1365, "hello world", 7), ("x", 5000, "", 1000), ("x", 4097, " y", 4096),
+                                      ("abc  de\n", 911, "fghij", 10), ("ab ", 2730, "hello world", 12), ("word ", 13107, "xy", 64)):
+            for k_ in ("s", "f"):
+                yield {"op": "linesplitlong", "kind": k_, "text": enc.enc_text(unit), "reps": reps, "tail": enc.enc_text(tail), "cols": c, "atts": list(ATTS[1])}
         k = 0
         for f in pool:
             for c in range(1, 7):
@@ -92,6 +99,24 @@ class C16(PureCheck):
     def execute(self, inp):
         from curtsies.formatstring import linesplit
         ev = dict(inp)
+        if inp["op"] == "linesplitlong":
+            from curtsies.formatstring import FmtStr, Chunk
+            text = enc.dec_text(inp["text"]) * inp["reps"] + enc.dec_text(inp["tail"])
+            atts = enc.dec_atts(inp["atts"]) if inp["kind"] == "f" else {}
+            x = FmtStr(Chunk(text, atts)) if inp["kind"] == "f" else text
+            ev["ws"] = [len(w) for w in text.split()]
+            try:
+                lines = list(linesplit(x, inp["cols"]))
+                ev["k"], ev["t"] = "ok", ""
+                ev["lens"] = [len(l) for l in lines]
+                ok = all(not l.s.startswith(" ") and not l.s.endswith(" ") and "  " not in l.s for l in lines)
+                ok = ok and "".join(l.s for l in lines).replace(" ", "") == "".join(text.split())
+                ok = ok and all(dict(ch.atts) == atts for l in lines for ch in l.chunks)
+                ev["same"] = int(ok)
+            except Exception as e:  # noqa
+                ev["k"], ev["t"], ev["lens"], ev["same"] = "exc", enc.exc_name(e), [], 0
+            del ev["text"], ev["tail"]
+            return ev
         if inp["f"]["k"] == "p":
             # a value whose text was read before (an earlier wrap of it) gets a plain prefix on its left: "> " + body
             body = enc.build_fmtstr(inp["f"]["v"])
@@ -120,12 +145,16 @@ class C16(PureCheck):
         return s.split()
 
     def classify(self, ev):
+        if ev["op"] == "linesplitlong":
+            return ("long", ev["kind"], ev["reps"], ev["cols"], len(ev["ws"]))
         w = self._words(ev)
         if len(w) >= 2 or any(len(x) > ev["cols"] for x in w):
             return (str(ev["f"]), ev["cols"])
         return None
 
     def case_class(self, ev, v):
+        if ev["op"] == "linesplitlong":
+            return "very-long-text"
         return "no-words" if not self._words(ev) else "words"
 
     def describe(self, ev, v):
